@@ -91,5 +91,8 @@ def run(ctx):
     clilib.stream(ctx, "cligraph", gen.cligraph_lines(ctx.rng.fork("cligraph"), 1200 if ctx.quick else 30000),
                   "cmr-graphic -c / cmr-network -c: output bytes vs. the representation matrix of the parsed edge list",
                   lambda c: gen.CLIGRAPH_CODES.get(c, str(c)))
+    ctx.stream("reprt", gen.reprt_lines(ctx.rng.fork("reprt"), 12000 if ctx.quick else 300000),
+               "constructed matrices of larger (di)graphs go through recognition and construction again",
+               describe=lambda c: gen.REPRT_CODES.get(c, str(c)))
     ctx.stream("repmat", lines, "representation matrices: exhaustive small multigraphs x forests x reversals, random",
                describe=lambda c: CODES.get(c, str(c)), nontrivial=lambda l, r: int(l.split()[2]) >= 2)
